@@ -1,6 +1,17 @@
 """C01 - well-formed encodings decode to exactly the field-by-field event sequence (reference differential)."""
 from .. import gen, observe as O
-from .common import case_payload, check_declared_types, first_diff, layout, model_for_case, nontrivial_wellformed
+from .common import (
+    ReplayCase,
+    case_payload,
+    check_declared_types,
+    classify_wellformed,
+    coverage_finalize,
+    first_diff,
+    layout,
+    model_for_case,
+    nontrivial_wellformed,
+    wellformed_campaign,
+)
 
 ID = "C01"
 LEVEL = "exploration"
@@ -24,19 +35,7 @@ def check_case(ctx, L, case):
     obs = O.run_decode(case.type, case.data, command_code=case.cc, enc=case.enc, strict=True)
     payload = case_payload(case)
     ctx.case((case.type, case.cc, case.enc, case.data), nontrivial_wellformed(case), sample=case.brief())
-    ctx.add("types", case.type if case.type not in ("Command", "Response") else f"{case.type}:{case.meta.get('cc_name')}")
-    for u in case.meta.get("unions", []):
-        ctx.add("union_arms", tuple(u))
-    for t, n in case.meta.get("lists", []):
-        ctx.add("list_lengths", n)
-    for fl in case.meta.get("flags", []):
-        ctx.count(f"flag:{fl}")
-    if case.type in ("Command", "Response"):
-        ctx.count(f"{case.type}:sessions={case.meta.get('sessions')}")
-        if case.meta.get("decrypt") or case.enc:
-            ctx.count(f"{case.type}:encrypted")
-        if case.meta.get("failed"):
-            ctx.count("Response:failed")
+    classify_wellformed(ctx, case)
     if obs.outcome["kind"] != "ok":
         o = obs.outcome
         sig = f"C01:rejected:{o['kind']}" + (f":{o['class']}@{o['where']}" if o["kind"] == "crash" else "")
@@ -56,48 +55,13 @@ def check_case(ctx, L, case):
 
 def run_shard(ctx):
     L = layout()
-    body = lambda case: check_case(ctx, L, case)  # noqa: E731
-    k = 2 if ctx.quick() else 6
-    # deterministic coverage pass
-    for t in ctx.mine(L.non_union_types()):
-        ctx.run_given(gen.structures(L, t), body, k, name=f"type:{t}")
-    for cc in ctx.mine(sorted(L.commands)):
-        for ns in (None, 0, 1, 2, 3):
-            ctx.run_given(gen.commands(L, cc, sessions=ns), body, k, name=f"cmd:{cc}:{ns}")
-            ctx.run_given(gen.responses(L, cc, sessions=ns, failed=False), body, k, name=f"rsp:{cc}:{ns}")
-        ctx.run_given(gen.commands(L, cc, sessions=2, decrypt=True), body, k, name=f"cmd:{cc}:enc")
-        ctx.run_given(gen.responses(L, cc, sessions=2, enc=True, failed=False), body, k, name=f"rsp:{cc}:enc")
-        ctx.run_given(gen.responses(L, cc, failed=True), body, k, name=f"rsp:{cc}:failed")
-    # random phase
-    ctx.run_given(gen.messages(L, big=not ctx.quick()), body, ctx.share(3000 if ctx.quick() else 60000), name="random")
+    wellformed_campaign(ctx, L, lambda case: check_case(ctx, L, case), 2 if ctx.quick() else 6, 8000 if ctx.quick() else 80000)
 
 
 def finalize(merged):
-    L = layout()
-    want = set(L.non_union_types())
-    for cc in L.commands:
-        want.add(f"Command:{cc}")
-        want.add(f"Response:{cc}")
-    missing = want - set(merged["sets"].get("types", ()))
-    if missing:
-        return {"harness_error": f"coverage pass never produced: {sorted(missing)[:10]}"}
-    return {"coverage": {"all_types_and_command_codes_covered": True}}
+    return coverage_finalize(merged)
 
 
 def replay(ctx, payload):
-    from ..gen import Case
-
     L = layout()
-
-    class _C:
-        pass
-
-    c = _C()
-    c.type, c.data, c.cc, c.enc, c.meta = payload["type"], payload["data"], payload["cc"], payload["enc"], {}
-    from ..refdec import ref_decode
-
-    r = ref_decode(L, c.type, c.data, command_code=c.cc, enc=c.enc)
-    c.events = r.events
-    c.n_prims = lambda: len(r.spans)
-    c.brief = lambda: {"type": c.type, "hex": c.data.hex()}
-    check_case(ctx, L, c)
+    check_case(ctx, L, ReplayCase(L, payload))
